@@ -3,10 +3,13 @@
 (* harness/h_ring.cpp.  The recorded history must be a behaviour of the ABSTRACT object: one bounded FIFO `q` of capacity   *)
 (* cap; every call takes effect atomically at one instant between its Inv and its Resp (silent Lin steps).                   *)
 (*   push / push_batch(vals) -> k : the first k values are appended at one instant, Len(q) + k <= cap (CapacityBound);       *)
-(*        k < asked only if the queue was full then: pfail = "strict": Len(q) + k = cap; pfail = "inflight" (batch MPMC,      *)
-(*        whose full test counts slots claimed by calls still in flight): Len(q) + k + (values of other pushes invoked and    *)
-(*        not yet effective) + (values taken by pops that have not returned yet) >= cap; pfail = "free": a push may fail      *)
-(*        freely (MPMC push() next to fetch_add recv(): outside what C07 states);                                            *)
+(*        k < asked only if the queue was that full at one instant of the call, not later than the instant the values         *)
+(*        appear (the code computes the room from one read of the indices and publishes afterwards): Occupancy + k >= cap,    *)
+(*        where Occupancy is what the queue's full test counts: pfail = "strict" (MPMC: indices move at the claim) Len(q);    *)
+(*        pfail = "pops" (SPSC: the consumer moves head after copying) Len(q) + values taken by pops that have not returned;  *)
+(*        pfail = "inflight" (batch MPMC: tail counts claimed, head counts completed) additionally + values of other pushes   *)
+(*        invoked and not yet effective; pfail = "free": a push may be refused freely (MPMC push() next to fetch_add recv():  *)
+(*        outside what C07 states);                                                                                           *)
 (*   send(v) (blocking)       : appended at an instant with Len(q) < cap;                                                     *)
 (*   pop / pop_batch(n) -> vals : vals are the first Len(vals) elements of q at one instant (so: only values that were        *)
 (*        pushed with success, each at most once, FIFO, per-producer order); fewer than asked only if the queue held         *)
@@ -41,20 +44,30 @@ Inv == /\ Ev("Inv") /\ pend[R.t].op = "none"
        /\ UNCHANGED <<cap, pfail, q>>
 Now == l <= Len(Tr) /\ Tr[l].e \in {"Resp", "Settle", "Quiesce"}
 Sum(f, S) == LET RECURSIVE sm(_) sm(X) == IF X = {} THEN 0 ELSE LET x == CHOOSE y \in X : TRUE IN f[x] + sm(X \ {x}) IN sm(S)
-\* values in flight around thread t: asked by pushes not yet effective, taken by pops not yet returned
-InFlight(t) == Sum([u \in T |-> IF u = t THEN 0
-                                ELSE IF pend[u].op \in Pushes /\ pend[u].st = "inv" THEN pend[u].n
-                                ELSE IF pend[u].op \in Pops /\ pend[u].st = "lin" THEN Len(pend[u].vals) ELSE 0], T)
+\* values in flight around thread t: taken by pops that have not returned yet; asked / reserved by pushes that are not effective yet
+PopsInFlight(t) == Sum([u \in T |-> IF u # t /\ pend[u].op \in Pops /\ pend[u].st = "lin" THEN Len(pend[u].vals) ELSE 0], T)
+PushesInFlight(t) == Sum([u \in T |-> IF u # t /\ pend[u].op \in Pushes /\ pend[u].st \in {"inv", "dec"} THEN pend[u].n ELSE 0], T)
+\* what the full test of the queue counts at one instant (see the header comment)
+Occupancy(t) == Len(q) + (IF pfail = "strict" THEN 0 ELSE PopsInFlight(t)) + (IF pfail = "inflight" THEN PushesInFlight(t) ELSE 0)
+\* a push that accepts everything takes effect in one step
 LinPush(t) == /\ Now /\ pend[t].op \in Pushes /\ pend[t].st = "inv"
-              /\ \E k \in 0..pend[t].n :
-                    /\ Len(q) + k <= cap
-                    /\ pend[t].blk => k = pend[t].n
-                    /\ k < pend[t].n => CASE pfail = "strict" -> Len(q) + k = cap
-                                          [] pfail = "inflight" -> Len(q) + k + InFlight(t) >= cap
-                                          [] OTHER -> TRUE
-                    /\ q' = q \o SubSeq(pend[t].vals, 1, k)
-                    /\ pend' = [pend EXCEPT ![t].st = "lin", ![t].n = k]
+              /\ Len(q) + pend[t].n <= cap
+              /\ q' = q \o pend[t].vals
+              /\ pend' = [pend EXCEPT ![t].st = "lin"]
               /\ UNCHANGED <<l, cap, pfail>>
+\* a push that accepts only k < asked values decides that at one instant at which the queue is that full (Decide), and the k
+\* values become visible at the same or a later instant of the call (Effect) - as the code does: the room is computed from one
+\* read of the indices, the elements are published by a later store
+Decide(t) == /\ Now /\ pend[t].op \in Pushes /\ pend[t].st = "inv" /\ ~pend[t].blk
+             /\ \E k \in 0..pend[t].n - 1 :
+                   /\ pfail = "free" \/ Occupancy(t) + k >= cap
+                   /\ pend' = [pend EXCEPT ![t].st = "dec", ![t].n = k]
+             /\ UNCHANGED <<l, cap, pfail, q>>
+Effect(t) == /\ Now /\ pend[t].op \in Pushes /\ pend[t].st = "dec"
+             /\ Len(q) + pend[t].n <= cap
+             /\ q' = q \o SubSeq(pend[t].vals, 1, pend[t].n)
+             /\ pend' = [pend EXCEPT ![t].st = "lin"]
+             /\ UNCHANGED <<l, cap, pfail>>
 LinPop(t) == /\ Now /\ pend[t].op \in Pops /\ pend[t].st = "inv"
              /\ LET k == IF Len(q) < pend[t].n THEN Len(q) ELSE pend[t].n IN     \* takes min(asked, available)
                 /\ pend[t].blk => k = 1
@@ -80,7 +93,7 @@ Quiesce == /\ Ev("Quiesce") /\ \A t \in T : pend[t].op = "none" /\ Len(q) = R.le
            /\ UNCHANGED <<cap, pfail, q, pend>>
 \* directed scenario bookkeeping (whether the held thread reached its gate): informational
 Gate == (Ev("Gate") \/ Ev("Observed")) /\ UNCHANGED <<cap, pfail, q, pend>>
-Next == Reset \/ Inv \/ Resp \/ Settle \/ Quiesce \/ Gate \/ \E t \in T : LinPush(t) \/ LinPop(t)
+Next == Reset \/ Inv \/ Resp \/ Settle \/ Quiesce \/ Gate \/ \E t \in T : LinPush(t) \/ Decide(t) \/ Effect(t) \/ LinPop(t)
 Spec == Init /\ [][Next]_vars
 NotAccepted == l <= Len(Tr)
 Progress == TLCSet(1, IF TLCGet(1) < l THEN l ELSE TLCGet(1))
